@@ -309,4 +309,41 @@ theorem step_complete_is_solution (rnd : Rat → Rat) (cfg : Cfg) (s : State) (a
   rw [step_reward, hd, reward_sparse]
   simp [hlc]
 
+/-! ### audit r5 #4 / #13: LAST at the level of the rules; the two episode iterators coincide -/
+
+/-- converse of `all_boxes_on_targets`: on a consistent board, if every box stands on a target the count is `nBoxes` -/
+theorem boxes_on_targets_count {n : Nat} {s : State} (hc : Consistent n s)
+    (h : ∀ p ∈ Grid.coords n n, Grid.get s.vgrid 0 p.1 p.2 = BOX → Grid.get s.fgrid 0 p.1 p.2 = TARGET) :
+    boxesOnTarget n s = nBoxes := by
+  rw [← hc.2.2.2.2.1]
+  unfold boxesOnTarget countCells
+  congr 1
+  apply List.filter_congr
+  intro p hp
+  by_cases hb : Grid.get s.vgrid 0 p.1 p.2 = BOX
+  · simp [hb, h p hp hb]
+  · simp [hb]
+
+theorem count_iff_all {n : Nat} {s : State} (hc : Consistent n s) :
+    boxesOnTarget n s = nBoxes ↔
+      ∀ p ∈ Grid.coords n n, Grid.get s.vgrid 0 p.1 p.2 = BOX → Grid.get s.fgrid 0 p.1 p.2 = TARGET :=
+  ⟨all_boxes_on_targets hc, boxes_on_targets_count hc⟩
+
+theorem levelComplete_iff_solution {n : Nat} {s : State} (hc : Consistent n s) :
+    levelComplete s = true ↔ IsSolution n s := by
+  have e : levelComplete s = true ↔ boxesOnTarget n s = nBoxes := by
+    rw [← countTargets_eq n s hc.1 hc.2.1]; simp [levelComplete]
+  rw [e, count_iff_all hc]
+  exact ⟨fun h => ⟨hc, h⟩, fun h => h.2⟩
+
+/-- LAST ⇔ (the successor is a solved level by the RULES ∨ the time limit is reached) -/
+theorem last_iff_rules (rnd : Rat → Rat) (cfg : Cfg) (s : State) (a : Nat) (ha : a < 4) (hc : Consistent cfg.n s) :
+    (step rnd cfg s a).2.stepType = .last ↔
+      (IsSolution cfg.n (step rnd cfg s a).1 ∨ cfg.timeLimit ≤ s.stepCount + 1) := by
+  rw [step_last_iff, levelComplete_iff_solution (step_consistent rnd cfg s a ha hc)]
+
+theorem stepL2_discount (rnd : Rat → Rat) (cfg : Cfg) (s : State) (a : Nat) :
+    (stepL2 rnd cfg s a).2.discount = [if doneSpec cfg (stepSpec cfg.n s a) then 0 else 1] := by
+  unfold stepL2 condLast; simp only []; split <;> rfl
+
 end Sokoban
